@@ -710,6 +710,23 @@ def plan_C01(ctx):
     cli_s = os.path.join(ctx.wd, "proc-cli.ndjson")
     py_s = os.path.join(ctx.wd, "proc-py.ndjson")
     n = cases_to_process_scenarios(cases, cli_s, py_s, 4 if ctx.deep else 16)
+    # texts nested far beyond / right at the parser's recursion limit, through the real process boundaries
+    T = {"t": "b", "v": True}
+    with open(cli_s, "a") as f:
+        for cls, status, outl in (("deep100k", "nonzero", []), ("deepobj100k", "nonzero", []), ("nest126", "zero", [T])):
+            for mode in (1, 2, 3):
+                f.write(json.dumps({"id": ["deeptext", cls, mode], "rule": {"valid": False, "cls": cls}, "mode": mode, "data": {"valid": True, "v": {"t": "z"}},
+                                    "exp": {"status": status, "out": outl}, "pipe": []}) + "\n")
+                if cls != "nest126":
+                    f.write(json.dumps({"id": ["deepdata", cls, mode], "rule": {"valid": True, "v": {"t": "z"}}, "mode": mode, "data": {"valid": False, "cls": cls},
+                                        "exp": {"status": "nonzero", "out": []}, "pipe": []}) + "\n")
+    with open(py_s, "a") as f:
+        for cls, exp in (("deep100k", {"kind": "raise", "exc": "ValueError"}), ("deepobj100k", {"kind": "raise", "exc": "ValueError"}), ("nest126", {"kind": "return", "v": T, "via": "std"})):
+            f.write(json.dumps({"id": ["deeptext", cls], "entry": "apply_serialized", "value": {"valid": False, "cls": cls}, "data": {"valid": True, "omitted": True},
+                                "ser": "omitted", "deser": "omitted", "exp": exp}) + "\n")
+            if cls != "nest126":
+                f.write(json.dumps({"id": ["deepdata", cls], "entry": "apply_serialized", "value": {"valid": True, "v": {"t": "z"}}, "data": {"valid": False, "cls": cls},
+                                    "ser": "omitted", "deser": "omitted", "exp": {"kind": "raise", "exc": "ValueError"}}) + "\n")
     run_cli_scenarios(ctx, cli_s, "cli-extremes", sc_prop="C01")
     run_py_scenarios(ctx, py_s, "python-extremes")
     if ctx.deep:
